@@ -20,15 +20,15 @@ Traces == Data.traces
 VARIABLES tid, l, st, verdict, pok, known
 vars == <<tid, l, st, verdict, pok, known>>
 Ev(t) == Traces[t].ev
-Bp == Traces[tid].hdr.fee_bp
+Hb == Traces[tid].hdr.fee_hbp          \* fee rate in half basis points (8 = 0.0004, 15 = 0.00075, 20 = 0.001)
 
 Abs(x) == IF x < 0 THEN -x ELSE x
 Near(a, b, t) == Abs(a - b) <= t
 Min2(a, b) == IF a < b THEN a ELSE b
 \* q (BU) x p (PU) in MU, floor; exact when q is a whole number of 1e-3
 Notional(q, p) == (q \div 10000) * p + ((q % 10000) * p) \div 10000
-\* x * (10000 - bp) / 10000, floor, without leaving 31 bits
-AfterFee(x, bp) == (x \div 10000) * (10000 - bp) + ((x % 10000) * (10000 - bp)) \div 10000
+\* x * (20000 - hb) / 20000, floor, without leaving 31 bits
+AfterFee(x, hb) == (x \div 20000) * (20000 - hb) + ((x % 20000) * (20000 - hb)) \div 20000
 PriceTol(p) == 3 + p \div 10000 + 1             \* 1 BU of quantity is worth p/10000 MU
 
 ActiveIds(S) == {i \in 1..Len(S.ord) : S.ord[i].st = "A"}
@@ -43,6 +43,8 @@ StateChecks(P) ==
   IF P.quote < 0 \/ P.base < 0 THEN "negative-balance"
   ELSE IF P.pos < 0 THEN "short-position"
   ELSE IF ~Near(P.pos, P.base, 1) THEN "position-is-not-base"
+  \* both are jesse's own floats (logged as float.hex() strings): position size EQUALS the base balance, bit for bit
+  ELSE IF P.posx # P.basex THEN "position-is-not-bit-equal-to-base"
   ELSE IF ~Near(P.stopSum, RefSum(P, "STP"), SumTol(P)) \/ ~Near(P.limitSum, RefSum(P, "LMT"), SumTol(P))
        THEN "sell-sums-are-not-resting-sells"
   ELSE "ok"
@@ -75,8 +77,12 @@ Judge(S, e) ==
              lhs == o.q + (IF o.typ = "STP" THEN RefSum(S, "STP") ELSE RefSum(S, "LMT"))
              \* with fee 0 every quantity and sum is an exact decimal (Decimal arithmetic in the code, whole BU in the
              \* log): the sell-side comparison is then judged strictly, also at equality
-             knife == IF o.side = "buy" THEN Near(cost, S.quote, 2) ELSE (Bp # 0 /\ Near(lhs, S.base, SumTol(S) + 1))
-             mustReject == IF o.side = "buy" THEN cost > S.quote ELSE lhs > S.base
+             \* selling exactly position.qty (the same float, nothing of that kind resting) must be accepted whatever the
+             \* fee: the position IS the base balance - judged strictly, no knife edge
+             sellAll == o.side = "sell" /\ e.qx = S.posx /\ (IF o.typ = "STP" THEN RefSum(S, "STP") ELSE RefSum(S, "LMT")) = 0
+             knife == IF o.side = "buy" THEN Near(cost, S.quote, 2)
+                      ELSE (~sellAll /\ Hb # 0 /\ Near(lhs, S.base, SumTol(S) + 1))
+             mustReject == IF o.side = "buy" THEN cost > S.quote ELSE (~sellAll /\ lhs > S.base)
          IN IF ~knife /\ mustReject /\ e.acc THEN R(tag \o ":accepted-over-balance", "")
             ELSE IF ~knife /\ ~mustReject /\ ~e.acc THEN R(tag \o ":rejected-within-balance", "")
             ELSE IF ~e.acc THEN R("ok", "")
@@ -106,8 +112,8 @@ Judge(S, e) ==
                   lim1 == IF o.side = "sell" /\ o.typ = "LMT" THEN S.limitSum - o.q ELSE S.limitSum
               IN IF ~OrdOK(S, P, e.id, "E") THEN R(tag \o ":order-status", "")
                  ELSE IF o.side = "buy"
-                      THEN Finish(tag, Fields(S, P, S.quote, 1, S.base + AfterFee(o.q, Bp), 2, stop1, lim1), P)
-                      ELSE Finish(tag, Fields(S, P, S.quote + AfterFee(Notional(eff, o.p), Bp), PriceTol(o.p),
+                      THEN Finish(tag, Fields(S, P, S.quote, 1, S.base + AfterFee(o.q, Hb), 2, stop1, lim1), P)
+                      ELSE Finish(tag, Fields(S, P, S.quote + AfterFee(Notional(eff, o.p), Hb), PriceTol(o.p),
                                               S.base - eff, 2, stop1, lim1), P)
     [] e.k = "price" -> IF P.ord # S.ord THEN R("price:order-record", "")
                         ELSE Finish("price", Fields(S, P, S.quote, 0, S.base, 0, S.stopSum, S.limitSum), P)
@@ -115,7 +121,7 @@ Judge(S, e) ==
 
 KnifeEv(S, e) ==
   e.k = "submit" /\ (IF e.side = "buy" THEN Near(Notional(e.q, e.p), S.quote, 2)
-                     ELSE Bp # 0 /\ Near(e.q + (IF e.typ = "STP" THEN RefSum(S, "STP") ELSE RefSum(S, "LMT")), S.base, SumTol(S) + 1))
+                     ELSE e.qx # S.posx /\ Hb # 0 /\ Near(e.q + (IF e.typ = "STP" THEN RefSum(S, "STP") ELSE RefSum(S, "LMT")), S.base, SumTol(S) + 1))
 
 Init == /\ tid \in 1..Len(Traces) /\ l = 1 /\ known = {}
         /\ st = Traces[tid].init
